@@ -71,6 +71,41 @@ def check_literal(ctx, rep, clsname: str, roles: Dict[str, str], kind: str):
     ax = cat.args[1] if len(cat.args) > 1 else next((kw.value for kw in cat.keywords if kw.arg == 'dim'), None)
     rep.check('C04.L', f"{clsname}.q::cat-last-axis", isinstance(ax, ast.UnaryOp) and isinstance(ax.operand, ast.Constant) and ax.operand.value == 1, W, None,
               "entries must be concatenated along the last axis")
+    # the names that stand for the parameters in the entries are the parameters (views of them, or a common rescaling): no clamp / floor / epsilon on the way
+    NONLINEAR = ('clamp', 'clamp_min', 'clamp_max', 'clip', 'abs', 'relu', 'round', 'floor', 'ceil', 'nan_to_num', 'maximum', 'minimum', 'fmax', 'fmin', 'where', 'exp', 'log',
+                 'softplus', 'sqrt', 'pow', 'square')
+    assigns = {}
+    for st in ast.walk(fn):
+        if isinstance(st, ast.Assign) and len(st.targets) == 1 and isinstance(st.targets[0], ast.Name):
+            assigns.setdefault(st.targets[0].id, []).append(st.value)
+
+    def alterations(e, depth=0):
+        out = []
+        while True:
+            if isinstance(e, ast.Subscript):
+                e = e.value
+            elif isinstance(e, ast.Call) and isinstance(e.func, ast.Attribute) and e.func.attr in NONLINEAR:
+                out.append(e.func.attr)
+                e = e.func.value if not (isinstance(e.func.value, ast.Name) and e.func.value.id == 'torch') else (e.args[0] if e.args else e)
+            elif isinstance(e, ast.Call) and isinstance(e.func, ast.Attribute) and not (isinstance(e.func.value, ast.Name) and e.func.value.id == 'torch'):
+                e = e.func.value          # unsqueeze / expand / reshape …
+            elif isinstance(e, ast.BinOp) and isinstance(e.op, (ast.Mult, ast.Div)):
+                e = e.left                # a common factor does not change the normalised matrix
+            elif isinstance(e, ast.BinOp) and isinstance(e.op, (ast.Add, ast.Sub)):
+                out.append('+ ' + ast.unparse(e.right)[:20])
+                e = e.left
+            elif isinstance(e, ast.Name) and e.id in assigns and depth < 5:
+                for v in assigns[e.id]:
+                    out += alterations(v, depth + 1)
+                return out
+            else:
+                return out
+    for local in roles:
+        if local in assigns:
+            alt = sorted(set(a for v in assigns[local] for a in alterations(v)))
+            rep.check('C04.L', f"{clsname}.q::{local}-enters-the-matrix-unaltered", not alt, where(cls.module, fn), {'alterations': alt},
+                      f"{clsname}.q builds its entries from `{local}`, which is the parameter passed through {alt}: the matrix is no longer the one of the parameter values "
+                      f"(values below a floor / beyond a clamp all give the same matrix)")
     tr = ToRat(matrix_atom(roles))
     Q = [[None] * 4 for _ in range(4)]
     for idx, e in enumerate(entries):
@@ -412,25 +447,190 @@ def check_builder(ctx, rep, qual: str, meth: str, symmetric: bool):
     rep.check('C04.B', f"{key}::returns-Q", len(rets) == 1 and isinstance(rets[0].value, ast.Name) and rets[0].value.id == Qn, W, None, f"{key} must return the matrix it normalised")
 
 
+class _Sym3:
+    """evaluates a norm() body on a symbolic 3×3 rate matrix with zero row sums (independent off-diagonal entries: no reversibility assumed) and frequencies π0..π2.
+    Values: Rat (scalar), ('v', [Rat]*3) vector along the last axis, ('c', [Rat]*3) column (vector with a trailing unit axis), ('m', [[Rat]*3]*3) matrix."""
+    N = 3
+
+    def __init__(self, q_name):
+        n = self.N
+        off = {(i, j): Rat.sym(f"q{i}{j}") for i in range(n) for j in range(n) if i != j}
+        self.Q = [[off[(i, j)] if i != j else None for j in range(n)] for i in range(n)]
+        for i in range(n):
+            d = Rat.const(0)
+            for j in range(n):
+                if j != i:
+                    d = d - off[(i, j)]
+            self.Q[i][i] = d
+        self.pi = [Rat.sym(f"pi{k}") for k in range(n)]
+        self.env = {q_name: ('m', self.Q)}
+
+    def want(self):
+        out = Rat.const(0)
+        for i in range(self.N):
+            out = out - self.pi[i] * self.Q[i][i]
+        return out
+
+    def bin(self, a, b, f):
+        n = self.N
+        if isinstance(a, Rat) and isinstance(b, Rat):
+            return f(a, b)
+        if isinstance(a, Rat):
+            a = ('m', [[a] * n for _ in range(n)]) if b[0] == 'm' else (b[0], [a] * n)
+        if isinstance(b, Rat):
+            b = ('m', [[b] * n for _ in range(n)]) if a[0] == 'm' else (a[0], [b] * n)
+        ka, kb = a[0], b[0]
+        if ka == kb and ka in ('v', 'c'):
+            return (ka, [f(x, y) for x, y in zip(a[1], b[1])])
+        if ka == 'm' and kb == 'm':
+            return ('m', [[f(a[1][i][j], b[1][i][j]) for j in range(n)] for i in range(n)])
+        if ka == 'm' and kb == 'v':      # [n, n] op [n]: along columns
+            return ('m', [[f(a[1][i][j], b[1][j]) for j in range(n)] for i in range(n)])
+        if ka == 'v' and kb == 'm':
+            return ('m', [[f(a[1][j], b[1][i][j]) for j in range(n)] for i in range(n)])
+        if ka == 'm' and kb == 'c':      # [n, n] op [n, 1]: along rows
+            return ('m', [[f(a[1][i][j], b[1][i]) for j in range(n)] for i in range(n)])
+        if ka == 'c' and kb == 'm':
+            return ('m', [[f(a[1][i], b[1][i][j]) for j in range(n)] for i in range(n)])
+        if {ka, kb} == {'v', 'c'}:
+            col, row = (a, b) if ka == 'c' else (b, a)
+            return ('m', [[f(col[1][i], row[1][j]) if ka == 'c' else f(row[1][j], col[1][i]) for j in range(n)] for i in range(n)])
+        raise Unsupported(None, 'operand kinds')
+
+    def axes(self, call, pos):
+        a = call.args[pos] if len(call.args) > pos else next((k.value for k in call.keywords if k.arg in ('dim', 'axis')), None)
+        if a is None:
+            return None
+        v = ast.literal_eval(a)
+        return tuple(v) if isinstance(v, (tuple, list)) else (v,)
+
+    def ev(self, e):
+        n = self.N
+        if isinstance(e, ast.Name):
+            if e.id in self.env:
+                return self.env[e.id]
+            raise Unsupported(e, f"name {e.id}")
+        if isinstance(e, ast.Constant) and isinstance(e.value, (int, float)):
+            return Rat.const(str(e.value))
+        if self_attr(e) in ('frequencies',) or (isinstance(e, ast.Attribute) and e.attr == 'tensor' and self_attr(e.value) == '_frequencies'):
+            return ('v', self.pi)
+        if isinstance(e, ast.UnaryOp) and isinstance(e.op, ast.USub):
+            return self.bin(Rat.const(-1), self.ev(e.operand), lambda x, y: x * y)
+        if isinstance(e, ast.BinOp) and isinstance(e.op, (ast.Add, ast.Sub, ast.Mult, ast.Div)):
+            f = {ast.Add: lambda x, y: x + y, ast.Sub: lambda x, y: x - y, ast.Mult: lambda x, y: x * y, ast.Div: lambda x, y: x / y}[type(e.op)]
+            return self.bin(self.ev(e.left), self.ev(e.right), f)
+        if isinstance(e, ast.Call) and isinstance(e.func, ast.Attribute):
+            nm = e.func.attr
+            torch_fn = isinstance(e.func.value, ast.Name) and e.func.value.id == 'torch'
+            recv = self.ev(e.args[0] if torch_fn else e.func.value)
+            pos = 1 if torch_fn else 0
+            if nm == 'unsqueeze':
+                ax = self.axes(e, pos)
+                if isinstance(recv, tuple) and recv[0] == 'v' and ax == (-1,):
+                    return ('c', recv[1])
+                if isinstance(recv, tuple) and recv[0] == 'v' and ax == (-2,):
+                    return recv
+                raise Unsupported(e, 'unsqueeze')
+            if nm == 'diagonal' and isinstance(recv, tuple) and recv[0] == 'm':
+                kw = {k.arg: ast.literal_eval(k.value) for k in e.keywords}
+                if kw.get('dim1') == -2 and kw.get('dim2') == -1 and not kw.get('offset'):
+                    return ('v', [recv[1][i][i] for i in range(n)])
+                raise Unsupported(e, 'diagonal axes')
+            if nm in ('triu', 'tril') and isinstance(recv, tuple) and recv[0] == 'm':
+                d = next((ast.literal_eval(k.value) for k in e.keywords if k.arg == 'diagonal'), ast.literal_eval(e.args[pos]) if len(e.args) > pos else 0)
+                keep = (lambda i, j: j - i >= d) if nm == 'triu' else (lambda i, j: j - i <= d)
+                return ('m', [[recv[1][i][j] if keep(i, j) else Rat.const(0) for j in range(n)] for i in range(n)])
+            if nm == 'sum':
+                ax = self.axes(e, pos)
+                if isinstance(recv, tuple) and recv[0] == 'v' and ax in ((-1,), None):
+                    out = Rat.const(0)
+                    for x in recv[1]:
+                        out = out + x
+                    return out
+                if isinstance(recv, tuple) and recv[0] == 'm':
+                    if ax in ((-2, -1), (-1, -2), None):
+                        out = Rat.const(0)
+                        for r_ in recv[1]:
+                            for x in r_:
+                                out = out + x
+                        return out
+                    if ax == (-1,):
+                        return ('v', [sum_rats(r_) for r_ in recv[1]])
+                    if ax == (-2,):
+                        return ('v', [sum_rats([recv[1][i][j] for i in range(n)]) for j in range(n)])
+                raise Unsupported(e, 'sum axes')
+            if nm in ('clone', 'contiguous'):
+                return recv
+        raise Unsupported(e, f"expression {ast.unparse(e)[:40]} outside the vocabulary of the norm evaluator")
+
+    def run(self, fn):
+        for st in fn.body:
+            if isinstance(st, ast.Expr) and isinstance(st.value, ast.Constant):
+                continue
+            if isinstance(st, ast.Assign) and len(st.targets) == 1 and isinstance(st.targets[0], ast.Name):
+                self.env[st.targets[0].id] = self.ev(st.value)
+                continue
+            if isinstance(st, ast.Return) and st.value is not None:
+                return self.ev(st.value)
+            raise Unsupported(st, 'statement outside the vocabulary of the norm evaluator')
+        raise Unsupported(fn, 'no return')
+
+
+def sum_rats(xs):
+    out = Rat.const(0)
+    for x in xs:
+        out = out + x
+    return out
+
+
 # ---------------------------------------------------------------------------
 def check_norm_and_ptn(ctx, rep):
     acls = ctx.classes.get(f"{ABS}.AbstractSubstitutionModel")
-    nfn = acls.resolve('norm')[1]
-    ret = [n for n in ast.walk(nfn) if isinstance(n, ast.Return)][0].value
-    Qp = nfn.args.args[1].arg
-    ok = False
-    if isinstance(ret, ast.UnaryOp) and isinstance(ret.op, ast.USub) and isinstance(ret.operand, ast.Call) and (dotted_name(ret.operand.func) or '').endswith('sum'):
-        s = ret.operand
-        if s.args and isinstance(s.args[0], ast.BinOp) and isinstance(s.args[0].op, ast.Mult):
-            parts = [s.args[0].left, s.args[0].right]
-            dg = [p for p in parts if isinstance(p, ast.Call) and (dotted_name(p.func) or '').endswith('diagonal') and p.args
-                  and isinstance(p.args[0], ast.Name) and p.args[0].id == Qp]
-            fr = [p for p in parts if self_attr(p) == 'frequencies']
-            ax = num(s.args[1]) if len(s.args) > 1 else None
-            dims = {kw.arg: num(kw.value) for p in dg for kw in p.keywords}
-            ok = len(dg) == 1 and len(fr) == 1 and ax == -1 and dims.get('dim1') == -2 and dims.get('dim2') == -1
-    rep.check('C04.N', 'AbstractSubstitutionModel.norm::minus-sum-pi-Qii', ok, where(acls.module, nfn), {'return': norm_text(ret)},
-              "norm must be −Σ_i π_i·Q_ii (diagonal over the last two axes, summed over the last axis)")
+
+    def minus_sum_pi_qii(nfn):
+        rets = [n for n in ast.walk(nfn) if isinstance(n, ast.Return)]
+        if len(rets) != 1 or len(nfn.args.args) < 2:
+            return False, None
+        ret = rets[0].value
+        Qp = nfn.args.args[1].arg
+        ok = False
+        if isinstance(ret, ast.UnaryOp) and isinstance(ret.op, ast.USub) and isinstance(ret.operand, ast.Call) and (dotted_name(ret.operand.func) or '').endswith('sum'):
+            s_ = ret.operand
+            if s_.args and isinstance(s_.args[0], ast.BinOp) and isinstance(s_.args[0].op, ast.Mult):
+                parts = [s_.args[0].left, s_.args[0].right]
+                dg = [p_ for p_ in parts if isinstance(p_, ast.Call) and (dotted_name(p_.func) or '').endswith('diagonal') and p_.args
+                      and isinstance(p_.args[0], ast.Name) and p_.args[0].id == Qp]
+                fr = [p_ for p_ in parts if self_attr(p_) == 'frequencies']
+                ax = num(s_.args[1]) if len(s_.args) > 1 else None
+                dims = {kw.arg: num(kw.value) for p_ in dg for kw in p_.keywords}
+                ok = len(dg) == 1 and len(fr) == 1 and ax == -1 and dims.get('dim1') == -2 and dims.get('dim2') == -1
+        return ok, ret
+    # the norm every concrete model resolves to (the base implementation, or an override): one expected substitution per unit time UNDER THE MODEL'S FREQUENCIES
+    seen = {}
+    for cls in [acls] + ctx.classes.subclasses(f"{ABS}.AbstractSubstitutionModel", strict=True):
+        r = cls.resolve('norm')
+        if r is None or id(r[1]) in seen:
+            continue
+        seen[id(r[1])] = True
+        ok, ret = minus_sum_pi_qii(r[1])
+        uses_freqs = any(self_attr(x) in ('frequencies', '_frequencies') for x in ast.walk(r[1]))
+        if not ok and uses_freqs:
+            # another form that uses the model's frequencies: evaluated on a symbolic 3×3 generator (zero row sums, no reversibility assumed — the norm also serves the
+            # non-reversible models) and compared with −Σ π_i Q_ii as a polynomial identity
+            try:
+                ev3 = _Sym3(r[1].args.args[1].arg)
+                got = ev3.run(r[1])
+                if not isinstance(got, Rat):
+                    raise Unsupported(r[1], 'norm does not reduce to a scalar')
+                rep.check('C04.N', f"{r[0].name}.norm::minus-sum-pi-Qii", got.equals(ev3.want()), where(r[0].module, r[1]), {'value_on_a_symbolic_generator': repr(got)[:200], 'expected': repr(ev3.want())[:200]},
+                          f"{r[0].name}.norm evaluates to {got!r} on a generator with zero row sums, not −Σ_i π_i·Q_ii = {ev3.want()!r}: it agrees only when π_i·Q_ij = π_j·Q_ji, but the same "
+                          f"norm scales the non-reversible models")
+            except Unsupported as u:
+                rep.undecided('C04.N', f"{r[0].name}.norm::minus-sum-pi-Qii", where(r[0].module, r[1]), str(u))
+            continue
+        rep.check('C04.N', f"{r[0].name}.norm::minus-sum-pi-Qii", ok, where(r[0].module, r[1]), {'return': norm_text(ret) if ret is not None else None},
+                  f"{r[0].name}.norm must be −Σ_i π_i·Q_ii with π the model's frequencies (diagonal over the last two axes, summed over the last axis): with another weighting the "
+                  f"branch lengths are no longer expected substitutions per site under the model's frequencies")
     for qual, meth, sink in ((f"{ABS}.SymmetricSubstitutionModel", 'p_t', 'eigen'), (f"{ABS}.NonSymmetricSubstitutionModel", 'p_t', 'matrix_exp'),
                              (f"{GEN}.EmpiricalSubstitutionModel", '__init__', 'eigen')):
         cls = ctx.classes.get(qual)
@@ -666,6 +866,7 @@ def run(ctx, rep):
     rep.rule('C04.E', "eigen-reconstruction is the conjugation diag(1/√π)·V·diag(exp(λt))·V⁻¹·diag(√π) of the symmetrised matrix; non-reversible: matrix_exp(Q·t)")
     rep.assumptions += ["torch.linalg.eigh returns orthonormal eigenvectors (Vᵀ = V⁻¹)", "torch.cat(…, -1).reshape(…,(4,4)) is row-major"]
     rep.not_decided += ["numerical accuracy of eigh / matrix_exp", "semigroup law numerically", "batched broadcasting", "empirical rate tables (LG, WAG values)"]
+    rep.rule('C04.X', "a position obtained by enumerating a filtered list (sense codons) is never used to index the table it was filtered from (all 64 codons)")
     steps = [
         ('C04.L', lambda: check_literal(ctx, rep, 'HKY', {'pi': 'pi', 'kappa': 'kappa'}, 'HKY')),
         ('C04.L', lambda: check_literal(ctx, rep, 'GTR', {'pi': 'pi', 'rates': 'r'}, 'GTR')),
@@ -679,6 +880,8 @@ def run(ctx, rep):
         ('C04.E', lambda: check_conjugation(ctx, rep, f"{ABS}.SymmetricSubstitutionModel", 'p_t', 'p_t')),
         ('C04.E', lambda: check_conjugation(ctx, rep, f"{GEN}.EmpiricalSubstitutionModel", '__init__', 'p_t')),
         ('C04.E', lambda: check_p_t_inventory(ctx, rep)),
+        ('C04.X', lambda: check_filtered_indices(ctx, rep)),
+        ('C04.E', lambda: check_no_argument_blind_memo(ctx, rep)),
     ]
     for i, (rule, f) in enumerate(steps):
         try:
@@ -707,3 +910,107 @@ def run(ctx, rep):
             check_jc69_layout(ctx, rep, (names['a'], names['b']))
     except Unsupported as u:
         rep.undecided('C04.J', 'JC69.p_t::layout', '', str(u))
+
+
+# ---------------------------------------------------------------------------
+# C04.X — positions in a filtered list are not positions in the table it was filtered from
+# ---------------------------------------------------------------------------
+INDEX_POSITIVE = """
+def __init__(self, data_type):
+    triplets = [t for t, aa in zip(data_type.triplets[:64], data_type.table[:64]) if aa != '*']
+    for i, ((idx1, codon1), (idx2, codon2)) in enumerate(combinations(enumerate(triplets), 2)):
+        if data_type.table[idx1] == data_type.table[idx2]:
+            self.synonymous[i] = 1.0
+    sense = [aa for aa in data_type.table[:64] if aa != '*']
+    for j, aa in enumerate(sense):
+        ok = sense[j] == aa
+"""
+
+
+def filtered_index_misuse(fn):
+    """[(subscript node, index variable, filtered list, table)]: an index obtained by enumerating a list that was FILTERED out of some tables (a comprehension with an
+    `if`) is used to subscript one of those tables: position k of the filtered list is not position k of the table as soon as one element was filtered out before it."""
+    filtered = {}     # name -> set of source expression texts (with and without a trailing slice)
+    for st in ast.walk(fn):
+        if isinstance(st, ast.Assign) and len(st.targets) == 1 and isinstance(st.targets[0], ast.Name) and isinstance(st.value, ast.ListComp) and any(g.ifs for g in st.value.generators):
+            srcs = set()
+            for g in st.value.generators:
+                for x in ast.walk(g.iter):
+                    if isinstance(x, (ast.Attribute, ast.Name)) and not (isinstance(x, ast.Name) and x.id in ('zip', 'enumerate', 'range', 'len')):
+                        srcs.add(ast.unparse(x))
+            filtered[st.targets[0].id] = srcs
+
+    def index_vars(target, it):
+        """names bound to positions of a filtered list by `for target in it`"""
+        out = {}
+        if isinstance(it, ast.Call) and isinstance(it.func, ast.Name) and it.func.id == 'enumerate' and it.args:
+            inner = it.args[0]
+            if isinstance(inner, ast.Name) and inner.id in filtered and isinstance(target, (ast.Tuple, ast.List)) and target.elts and isinstance(target.elts[0], ast.Name):
+                out[target.elts[0].id] = inner.id
+            # enumerate(combinations(enumerate(F), 2)): ((i1, x1), (i2, x2)) are (position, element) pairs of F
+            if isinstance(inner, ast.Call) and isinstance(inner.func, (ast.Name, ast.Attribute)) and (dotted_name(inner.func) or '').split('.')[-1] in ('combinations', 'permutations', 'product') \
+                    and inner.args and isinstance(target, (ast.Tuple, ast.List)) and len(target.elts) == 2:
+                out.update(index_vars_of_pairs(target.elts[1], inner.args[0]))
+        if isinstance(it, ast.Call) and (dotted_name(it.func) or '').split('.')[-1] in ('combinations', 'permutations', 'product') and it.args:
+            out.update(index_vars_of_pairs(target, it.args[0]))
+        return out
+
+    def index_vars_of_pairs(target, seq):
+        out = {}
+        if isinstance(seq, ast.Call) and isinstance(seq.func, ast.Name) and seq.func.id == 'enumerate' and seq.args and isinstance(seq.args[0], ast.Name) and seq.args[0].id in filtered \
+                and isinstance(target, (ast.Tuple, ast.List)):
+            for pair in target.elts:
+                if isinstance(pair, (ast.Tuple, ast.List)) and pair.elts and isinstance(pair.elts[0], ast.Name):
+                    out[pair.elts[0].id] = seq.args[0].id
+        return out
+    idx = {}
+    for st in ast.walk(fn):
+        if isinstance(st, ast.For):
+            idx.update(index_vars(st.target, st.iter))
+        if isinstance(st, (ast.ListComp, ast.GeneratorExp, ast.SetComp, ast.DictComp)):
+            for g in st.generators:
+                idx.update(index_vars(g.target, g.iter))
+    out = []
+    for x in ast.walk(fn):
+        if isinstance(x, ast.Subscript) and isinstance(x.slice, ast.Name) and x.slice.id in idx:
+            base = x.value
+            while isinstance(base, ast.Subscript):
+                base = base.value
+            bt = ast.unparse(base)
+            f = idx[x.slice.id]
+            if bt != f and bt in filtered[f]:
+                out.append((x, x.slice.id, f, bt))
+    return out
+
+
+def check_filtered_indices(ctx, rep):
+    t = ast.parse(INDEX_POSITIVE).body[0]
+    got = [(v, f, tb) for _, v, f, tb in filtered_index_misuse(t)]
+    if sorted(got) != [('idx1', 'triplets', 'data_type.table'), ('idx2', 'triplets', 'data_type.table')]:
+        raise AnalysisError(f"C04.X self-check: misuse sites of the embedded example are {got}")
+    n = 0
+    for mname, m in sorted(ctx.prog.modules.items()):
+        if not (mname.startswith('torchtree.evolution.substitution_model') or mname == 'torchtree.evolution.datatype'):
+            continue
+        for fn in ast.walk(m.tree):
+            if not isinstance(fn, ast.FunctionDef):
+                continue
+            n += 1
+            cl = getattr(fn, '_parent', None)
+            scope = f"{cl.name}.{fn.name}" if isinstance(cl, ast.ClassDef) else fn.name
+            for node, var, flt, table in filtered_index_misuse(fn):
+                rep.bad('C04.X', f"{scope}::{ast.unparse(node)[:50]}", where(m, node), {'index': var, 'filtered_list': flt, 'table': table},
+                        f"{scope}: `{ast.unparse(node)[:60]}` looks up `{table}` at `{var}`, which is a position in `{flt}` — a list FILTERED out of `{table}` (stop codons removed): after the "
+                        f"first removed element the positions no longer coincide, so states are paired with the amino acid of another codon")
+    rep.ok('C04.X', 'substitution-models::positions-of-filtered-lists-stay-with-the-filtered-list', '', {'functions_scanned': n})
+    if n < 40:
+        rep.incomplete('C04.X', '*', '', f"only {n} functions scanned")
+
+
+def check_no_argument_blind_memo(ctx, rep):
+    """C04.E — an eigen system / transition matrix kept across calls must be keyed by what it was computed from (C11.M rules on the substitution models): a decomposition
+    stored once per class is handed to every other model of that class hierarchy, whatever its rate matrix"""
+    from props import c11
+    from sa.report import RuleProxy
+    c11.check_memo_keys(ctx, RuleProxy(rep, 'C04.E', 'memo::'), only=lambda m: m.name.startswith('torchtree.evolution.substitution_model'))
+    rep.ok('C04.E', 'memo::substitution-models::scanned', '', {'memo_sites': rep.analysed.get('memo_sites[C11.M]', 0)})
